@@ -51,25 +51,25 @@ func CompileAllOf(rootSchema *ischema.ISchema) {
 // rule.
 func (c *allOfConstraintCompiler) processSchema(schem *ischema.ISchema) {
 	if node := schem.RootNode(); node != nil {
-		c.processNode(node)
+		c.processNode(schem, node)
 	}
 }
 
 // processNode recursively searches and processing nodes for the "allOf" rule.
-func (c *allOfConstraintCompiler) processNode(node ischema.Node) {
+func (c *allOfConstraintCompiler) processNode(owner *ischema.ISchema, node ischema.Node) {
 	if allOf := node.Constraint(constraint.AllOfConstraintType); allOf != nil {
-		c.extend(node, allOf.(*constraint.AllOf).SchemaNames())
+		c.extend(owner, node, allOf.(*constraint.AllOf).SchemaNames())
 		node.DeleteConstraint(constraint.AllOfConstraintType)
 	}
 
 	if branchNode, ok := node.(ischema.BranchNode); ok {
 		for _, childNode := range branchNode.Children() {
-			c.processNode(childNode)
+			c.processNode(owner, childNode)
 		}
 	}
 }
 
-func (c *allOfConstraintCompiler) extend(node ischema.Node, schemaNames []string) {
+func (c *allOfConstraintCompiler) extend(owner *ischema.ISchema, node ischema.Node, schemaNames []string) {
 	defer lexeme.CatchLexEventError(node.BasisLexEventOfSchemaForNode())
 
 	if len(schemaNames) == 0 {
@@ -77,11 +77,11 @@ func (c *allOfConstraintCompiler) extend(node ischema.Node, schemaNames []string
 	}
 
 	for _, name := range schemaNames {
-		c.extendWith(node, name)
+		c.extendWith(owner, node, name)
 	}
 }
 
-func (c *allOfConstraintCompiler) extendWith(node ischema.Node, name string) {
+func (c *allOfConstraintCompiler) extendWith(owner *ischema.ISchema, node ischema.Node, name string) {
 	lex := node.BasisLexEventOfSchemaForNode()
 	defer lexeme.CatchLexEventErrorWithIncorrectUserType(
 		lex,
@@ -95,6 +95,12 @@ func (c *allOfConstraintCompiler) extendWith(node ischema.Node, name string) {
 			c.foundNames = append(c.foundNames, n)
 		}
 		c.foundTypes[n] = schemTypes[n]
+		if owner != c.rootSchema {
+			// The inherited properties refer to the unnamed types of the schema they
+			// come from (the alternatives of an "or" rule): the schema that inherits
+			// them has to know these types too, not only the root schema.
+			owner.AddType(n, schemTypes[n])
+		}
 	}
 
 	fromObject, ok := schem.RootNode().(*ischema.ObjectNode)
